@@ -16,7 +16,9 @@ import vlib
 PROPS = "Properties_C04"
 # leaf functions / constants of ring.c are re-translated from the C source on every run (tools/translate_leaf.py ->
 # coq/gen/Leaf.v, Constants.v) and re-proved equal to the model's (coq/Properties_leaf_ring.v)
-EXTRA_PROPS = ["Properties_leaf_ring"]
+# Properties_C04_huge: a write/amend whose size is >= the ring size is refused whatever its source is, so the model
+# driver may run W<n>/A<n>, N <= n <= 2^32-1, with an N-byte stand-in source
+EXTRA_PROPS = ["Properties_leaf_ring", "Properties_C04_huge"]
 
 
 def REGEN(ctx):
@@ -25,7 +27,11 @@ def REGEN(ctx):
 
 RULE = ("rings are created through a guard-page allocator with requested sizes that are powers of two and not (3, 5, 7, 40, 100, 1000, ...; every buffer access is checked against the allocated extent); trace cases: every head pair (r,w) of rings of size 1,2,4,8,16 x every API call with size arguments at and "
         "around the space boundary, transactions (begin, 1-3 amends, commit) incl. failing amends, random call "
-        "sequences, random states of sizes 32..4096; schedule cases: writer/reader programs of <=3 calls on a ring of "
+        "sequences, random states of sizes 32..4096; write/amend sizes also N..2^32-1 (2^32-1, 2^32-2, 2^32-fill(+-1), "
+        "2^32-w, 2^32-N, 2^31, N, N+fill, 2N on empty and non-empty rings, as writes and as amends inside transactions "
+        "followed by further amends and the commit): the C driver passes the size with a source block of N+64 bytes that "
+        "ends at a PROT_NONE page (a wrongly accepted request faults = failure), the model driver uses an N-byte stand-in "
+        "source (Properties_C04_huge: the model's trace/results/memory do not depend on a source of >= N bytes); schedule cases: writer/reader programs of <=3 calls on a ring of "
         "size 4 (and 2, 8), all schedules incl. stale loads enumerated depth-first (budgeted in quick, exhaustive in "
         "thorough) plus seeded random schedules; non-trivial = a trace case with a non-zero size argument, or any "
         "schedule case; distinct case strings counted")
@@ -38,6 +44,9 @@ ASSUMPTIONS = [
     "-fsanitize=thread instruments (every load/store of ring.c that is not provably thread-local)",
     "zix_ring_mlock and zix_ring_reset (documented as not thread-safe) are outside the model",
     "ring sizes above 4096 are not exercised by the correspondence (the theorems cover all 2^k, k <= 31)",
+    "write/amend requests of N..2^32-1 bytes are run on the model side with an N-byte stand-in source; that this gives "
+    "the model's answer for every real source of that length is theorem ring_overlong_calls_irrelevant "
+    "(coq/Properties_C04_huge.v), re-checked on every run; the C side never supplies more than N+64 source bytes",
 ]
 
 SRC_EXTRA = ["allocator.c", "errno_status.c"]
@@ -77,8 +86,19 @@ def ksize(r, k):
     return "%d" % k if req == (1 << k) else "%d/%d" % (k, req)
 
 
-def ops_for_state(N, r, w):
-    """single API calls worth trying in state (r, w): sizes at and around the space boundaries"""
+U32 = 1 << 32
+
+
+def huge_sizes(N, fill, w):
+    """request sizes >= N aimed at 32-bit wrap-around of fill + size and head + size (fill = bytes the writer sees
+    in the ring, w = the write head it would copy to)"""
+    c = [U32 - 1, U32 - 2, U32 - fill, U32 - fill - 1, U32 - fill + 1, U32 - w, U32 - N, 1 << 31, N, N + fill, 2 * N]
+    return sorted(set(x for x in c if N <= x <= U32 - 1))
+
+
+def ops_for_state(N, r, w, huge_keep=None):
+    """single API calls worth trying in state (r, w): sizes at and around the space boundaries;
+    huge_keep: None = all over-long request cases, else a predicate deciding which of them to keep (quick tier)"""
     rs = (w - r) % N
     ws = N - 1 - rs
     out = [["S"], ["s"]]
@@ -92,6 +112,15 @@ def ops_for_state(N, r, w):
     out.append(["B", "A%d" % ws, "A1", "C", "s"])          # second amend fails, commit publishes the first
     out.append(["B", "A1", "S", "B", "A%d" % min(ws, 2), "C", "s"])  # abandoned, then a fresh one
     out.append(["B", "C", "s"])
+    # requests of at least the whole ring size, up to 2^32-1: refused, nothing changes
+    big = []
+    for n in huge_sizes(N, rs, w):
+        big.append(["W%d" % n, "s", "S"])
+        big.append(["B", "A%d" % n, "C", "s", "P%d" % rs])
+    a = min(1, ws)                                           # inside a transaction that has already amended a bytes
+    for n in huge_sizes(N, rs + a, (w + a) % N):
+        big.append(["B", "A%d" % a, "A%d" % n, "A%d" % (ws - a), "C", "s", "R%d" % (rs + ws)])
+    out += [c for c in big if huge_keep is None or huge_keep()]
     return out
 
 
@@ -114,6 +143,12 @@ FIXED_PROGS = [
 ]
 
 
+def rand_huge(r, N):
+    """an over-long request size for the random sequences (the fill is not tracked there: 2^32-j for every j <= N)"""
+    return r.choice([U32 - 1, U32 - 2, U32 - N, 1 << 31, N, 2 * N, U32 - r.randint(1, N), U32 - r.randint(1, N),
+                     r.randint(N, U32 - 1)])
+
+
 def gen(ctx, seed, tier):
     r = ctx.rng("gen", seed)
     cases = []
@@ -122,7 +157,8 @@ def gen(ctx, seed, tier):
         N = 1 << k
         for rh in range(N):
             for wh in range(N):
-                for ops in ops_for_state(N, rh, wh):
+                keep = (lambda: r.random() < 0.3) if (tier == "quick" and k >= 3) else None
+                for ops in ops_for_state(N, rh, wh, keep):
                     if k == 4 and tier == "quick" and r.random() < 0.6:
                         continue
                     cases.append("T %s %d %d %s" % (ksize(r, k), rh, wh, " ".join(ops)))
@@ -134,8 +170,11 @@ def gen(ctx, seed, tier):
         for _ in range(r.randint(2, 8)):
             c = r.choice(["W", "W", "R", "R", "P", "K", "S", "s", "T"])
             n = r.choice([0, 1, 2, 3, N // 2, N - 1, N, r.randint(0, N + 1)])
+            if c == "W" and r.random() < 0.12:
+                n = rand_huge(r, N)
             if c == "T":
-                seq += ["B"] + ["A%d" % r.choice([0, 1, 2, N // 2]) for _ in range(r.randint(0, 3))] + (["C"] if r.random() < 0.8 else [])
+                seq += ["B"] + ["A%d" % (rand_huge(r, N) if r.random() < 0.12 else r.choice([0, 1, 2, N // 2]))
+                                for _ in range(r.randint(0, 3))] + (["C"] if r.random() < 0.8 else [])
             elif c in "Ss":
                 seq.append(c)
             else:
@@ -157,7 +196,9 @@ def gen(ctx, seed, tier):
                 rh = r.choice([0, N - 1, N - 2, N // 2])
             rs = (wh - rh) % N
             ws = N - 1 - rs
-            op = r.choice(["W%d" % ws, "W%d" % (ws + 1), "W%d" % r.randint(0, N), "R%d" % rs, "R%d" % (rs + 1),
+            hs = huge_sizes(N, rs, wh)
+            op = r.choice(["W%d s" % r.choice(hs), "B A%d A%d C s" % (r.choice(hs), ws),
+                           "W%d" % ws, "W%d" % (ws + 1), "W%d" % r.randint(0, N), "R%d" % rs, "R%d" % (rs + 1),
                            "P%d" % r.randint(0, N), "K%d" % rs, "R%d" % r.randint(0, N), "S", "s",
                            "B A%d A%d C s" % (ws // 2, ws - ws // 2), "W%d R%d" % (ws, rs + ws)])
             cases.append("T %s %d %d %s" % (ksize(r, k), rh, wh, op))
@@ -255,7 +296,14 @@ def nontrivial(c):
 
 
 def stats(cases, impl):
+    def overlong(c):
+        t = c.split()
+        if t[0] != "T":
+            return False
+        N = 1 << int(t[1].split("/")[0])
+        return any(x[0] in "WA" and x[1:].isdigit() and int(x[1:]) >= N for x in t[4:])
     d = {"trace_cases": sum(c.startswith("T") for c in cases),
+         "trace_cases_with_overlong_request": sum(overlong(c) for c in cases),
          "schedule_cases": sum(c.startswith("X") for c in cases),
          "trace_cases_with_wraparound_copy": sum(1 for l in impl if re.search(r"[rw]@\d+:[0-9a-f]+ [rw]@0:", l)),
          "failed_calls_seen": sum(1 for l in impl if re.search(r"\b[wrpk]=0\b|a=2", l.split(" || ")[0]))}
